@@ -264,5 +264,19 @@ class Origins:
     def roots(self, e: ast.AST) -> Set[str]:
         return {r for r, _ in self.origin(e)}
 
+    def deps(self, e: ast.AST, _seen: Optional[Set[str]] = None) -> Set[str]:
+        """Liberal dependency set: parameters reachable from any name in ``e`` through any
+        local definition (whatever the expression form)."""
+        seen = _seen if _seen is not None else set()
+        out: Set[str] = set()
+        for n in ast.walk(e):
+            if isinstance(n, ast.Name) and n.id not in seen:
+                seen.add(n.id)
+                if n.id in self.params:
+                    out.add(n.id)
+                for _, v in self.defs.get(n.id, []):
+                    out |= self.deps(v, seen)
+        return out
+
     def crs_roots(self, e: ast.AST) -> Set[str]:
         return {r for r, c in self.origin(e) if c}
